@@ -95,3 +95,17 @@ PROPS["C01"] = Spec(
     bounds={"quick": "<=8 top-level callbacks, nesting depth<=2, 4x4000 cases", "thorough": "<=14 top-level callbacks, 16x25000 cases"},
     assumptions=COMMON_ASSUMPTIONS,
 )
+
+PROPS["C13"] = Spec(
+    engine="harness.engines.lifecycle",
+    quick_cases=4000, thorough_cases=30000,
+    rule="complete enumeration of {add_resource, add_resource_factory, get_resource, get_resource_nowait (existing / factory / "
+    "missing / missing-optional), add_teardown_callback, __aenter__, closed} x {never entered, open, inside a teardown callback, "
+    "closed} x {clean, exception, cancelled, raising-teardown exit} x {root, nested} x {method, module-level API} x backend, plus "
+    "all stack-corruption shapes of depth 2-4; on top, generated sequences of 0-3 (thorough 0-5) operations in every lifecycle "
+    "state of one context; oracle = the statement's allowed/forbidden table, unchanged get_resources views + silent event "
+    "listener + never-run callbacks after forbidden calls, closed flag per state; non-trivial = touches a cell outside the four "
+    "the suite samples; distinct = distinct canonical JSON",
+    bounds={"quick": "full matrix (~1000 cells) + 4x4000 generated sequences", "thorough": "full matrix + 16x30000 generated sequences"},
+    assumptions=COMMON_ASSUMPTIONS,
+)
